@@ -438,6 +438,12 @@ func genMix(prop string, seed uint64, run int, o mixOpts) *Scenario {
 		// the current directory itself, spelled in ways that clean to "."
 		dirs = append(dirs, ".")
 		g.kind["."] = 'd'
+		// files right in it, watched under their bare names (no directory component at all)
+		for j := 1 + g.r.Intn(2); j > 0; j-- {
+			p := g.newEntry(".", []int{0})
+			g.kind[p] = 'f'
+			setup = append(setup, Op{K: OpCreate, P: p})
+		}
 		if sc.Cfg.Lagfree && sc.Cfg.QueueLimit == 0 && g.chance(0.6) {
 			// ... and removed as the last step of a sequential history (the run's working
 			// directory is a sub-directory of the scratch root, which the harness leaves
@@ -453,6 +459,9 @@ func genMix(prop string, seed uint64, run int, o mixOpts) *Scenario {
 	}
 	sc.Cfg.Consumers = []ConsumerCfg{{Mode: cm, StopN: g.r.Intn(6)}}
 	addOp := func(p string) Op {
+		if strings.HasPrefix(p, "./") && !strings.Contains(p[2:], "/") && g.chance(0.7) {
+			return Op{K: OpAdd, W: 0, P: p[2:]}
+		}
 		if p == "." {
 			return Op{K: OpAdd, W: 0, P: []string{".", "./", "d0/..", "./.", "d0/../"}[g.r.Intn(5)]}
 		}
@@ -546,8 +555,25 @@ func genMix(prop string, seed uint64, run int, o mixOpts) *Scenario {
 			sc.Cfg.Weights = map[string]float64{"reader": 0.001, "consumer": 1}
 			sc.Cfg.QueueLimit = 0
 		}
-		for i, n := 0, nb; i < n; i++ {
-			wt[0] = append(wt[0], Op{K: OpCreate, P: fmt.Sprintf("%s/burst%d", d, i)})
+		if nb > 2000 && g.chance(0.5) {
+			// ... of records without a name (16 bytes each: exactly 4096 of them fill the
+			// read buffer): alternating writes to two watched files of an unwatched directory
+			var ns []Op
+			for _, op := range setup {
+				if op.K == OpNewWatcher {
+					ns = append(ns, Op{K: OpCreate, P: "out/nlA"}, Op{K: OpCreate, P: "out/nlB"})
+				}
+				ns = append(ns, op)
+			}
+			sc.Setup = append(ns, Op{K: OpAdd, W: 0, P: "out/nlA"}, Op{K: OpAdd, W: 0, P: "out/nlB"})
+			nb = 4100 + g.r.Intn(300)
+			for i := 0; i < nb; i++ {
+				wt[0] = append(wt[0], Op{K: OpWrite, P: []string{"out/nlA", "out/nlB"}[i%2], N: 1})
+			}
+		} else {
+			for i, n := 0, nb; i < n; i++ {
+				wt[0] = append(wt[0], Op{K: OpCreate, P: fmt.Sprintf("%s/burst%d", d, i)})
+			}
 		}
 		sc.Cfg.MaxSteps = 60000 + nb*20
 	}
